@@ -227,8 +227,10 @@ func (s *fileStore) Open(ctx context.Context, task TaskName, partition int, offs
 	r := f.Reader(ctx)
 	if n, err := r.Seek(offset, io.SeekStart); err != nil || n != offset {
 		if err == nil {
-			return nil, errors.E(errors.Invalid, fmt.Sprintf("Seeked to %d, got %d", offset, n))
+			err = errors.E(errors.Invalid, fmt.Sprintf("Seeked to %d, got %d", offset, n))
 		}
+		_ = f.Close(ctx)
+		return nil, err
 	}
 	return &fileIOCloser{
 		Reader: io.LimitReader(r, info.Size()-8-offset),
